@@ -188,6 +188,17 @@ def search_approx(seed, tier):
         ic2.u0 = u0_new2
         cases += [('approx1d/u0 of the condition object replaced after construction', ap1, (xx, t0), u0_new(xx), None),
                   ('approx2d/u0 replaced after construction', ap2, (xx, yy, t0), u0_new2(xx, yy), None)]
+        # an initial profile that is a stored table (u0 hands back the same tensor object on every call): evaluating the approximator at t != 0
+        # leaves the table alone, and t = 0 still returns it
+        tab = torch.sin(a * xx) + b
+        tab_keep = tab.clone()
+        apt = T.SingleNetworkApproximator1DSpatialTemporal(FCNN(2, 1, hidden_units=hidden), None, T.FirstOrderInitialCondition(lambda x: tab), [])
+        with torch.no_grad():
+            apt(xx, torch.full_like(xx, 0.7))
+        if not torch.equal(tab, tab_keep):
+            found.append(dict(kind='approximator', case='approx1d/u0 returns a stored table', violated='the table was modified by an evaluation at t = 0.7',
+                              max_change=float((tab - tab_keep).abs().max())))
+        cases.append(('approx1d/u0 returns a stored table, evaluated at t = 0.7 before', apt, (xx, t0), tab_keep, None))
         for name, ap, args, want, wantdot in cases:
             n_eval += 1
             try:
